@@ -8,4 +8,21 @@ open Rsp Rsp.Addr
 /-- the `mask[]` table of hostport.c:prefixmatch is the model's table -/
 theorem mask_tie : ∀ v ∈ Generated.prefixMask, v = mask.map (·.toNat) := by tie_const Generated.prefixMask
 
+/-- the lookups by which an accepted (D)TLS connection is attributed to a client block, in the order they occur in the source -/
+def attributionCalls : List String := ["find_clconf", "find_all_clconf", "verifytlscert", "verifyconfcert", "find_clconf", "addclient"]
+
+/-- every lookup that names a candidate block takes the peer's address -/
+def byAddress (f : String) : Bool := f != "find_clconf_type"
+
+/-- **C14 (TLS / DTLS).** `tlsservernew` and `dtlsservernew` find the first candidate by address (`find_clconf`), collect the further
+    candidates by address (`find_all_clconf`), and after a block has refused the peer's certificate go on to the NEXT block BY ADDRESS
+    (`find_clconf` again) - never by transport alone (`find_clconf_type`); the sequences are regenerated from the sources -/
+theorem tls_attribution_tie : ∀ v ∈ Generated.tlsAttribution, v = attributionCalls ∧ v.all byAddress = true := by
+  intro v hv
+  simp only [Generated.tlsAttribution, Option.mem_def, Option.some.injEq, reduceCtorEq] at hv <;> (subst hv; decide)
+
+theorem dtls_attribution_tie : ∀ v ∈ Generated.dtlsAttribution, v = attributionCalls ∧ v.all byAddress = true := by
+  intro v hv
+  simp only [Generated.dtlsAttribution, Option.mem_def, Option.some.injEq, reduceCtorEq] at hv <;> (subst hv; decide)
+
 end Rsp.Tie.C14
